@@ -60,6 +60,7 @@ class Result:
     log: str = ""
     functions: list = field(default_factory=list)       # /repo functions seen in checks
     vcc: dict = field(default_factory=dict)
+    playback: list = None
 
 
 def ensure_dir(p):
@@ -390,6 +391,9 @@ def run_jobs(jobs, slots=14, progress=True):
         w = pool.acquire(j.weight)
         try:
             r = run_job(j)
+            if r.status == "failed" and j.expect == "pass":
+                # counterexample extraction right away (a second Kani run), while the other jobs keep running
+                r.playback = extract_playback(j)
         finally:
             pool.release(w)
         results[i] = r
